@@ -238,8 +238,11 @@ def pinned_specs(quick):
     specs = []
     for targets, K in ((["a.x", "b", "a.y"], False), (["n1.east.example", "n2", "n1.west.example"], False),
                        (["a.x", "b", "c.x"], False), (["b", "a.x", "c", "d.y", "e"], False), (["a.x", "b.y"], False),
-                       (["a.x", "b", "c.x"], True), (["plain", "other"], False)):
-        specs.append({"kind": "real-run", "targets": targets, "labels": True, "K": K, "fanout": 32, "write_style": "pinned",
+                       (["a.x", "b", "c.x"], True), (["plain", "other"], False),
+                       # one domain a proper prefix / suffix of the other; digit-first names; -N
+                       (["a.dom", "b.dom.sub"], False), (["a.sub.dom", "b.dom"], False), (["10.0.0.1", "h.x", "10.0.0.2"], False),
+                       (["a.x", "b", "a.y"], None)):
+        specs.append({"kind": "real-run", "targets": targets, "labels": K is not None, "K": bool(K), "fanout": 32, "write_style": "pinned",
                       "hosts": {t: simple(t) for t in targets}, "timeout": 0, "capture": "pipe", "pinned": "domains"})
     # one stream ends long before the other
     for first, fd in (("o", 1), ("e", 2)):
